@@ -66,7 +66,7 @@ def run(facts, rep, ctx):
                    'write set of custom through self: %s' % sorted({effects.clean(p)[:1] for p in w}))
 
 
-def run_ri(facts, rep, rule, body_path, adt_path, floor_buffers):
+def run_ri(facts, rep, rule, body_path, adt_path, floor_buffers, tb_sub=('matrix', 'rows', 'cols')):
     from . import eng_ri
     rep.rule(rule, 'per-call re-initialisation: on every path of the core routine the first mention of each reused '
                    'scratch buffer of the aligner object is a reset (Vec::clear, whole-field assignment, or a local '
@@ -78,7 +78,7 @@ def run_ri(facts, rep, rule, body_path, adt_path, floor_buffers):
         return
     rep.analysed_body(body)
     bufs = eng_ri.buffers_from_adt(facts, adt_path, ['I', 'D', 'S', 'Lx', 'Ly', 'Sn', 'traceback'],
-                                   sub={'traceback': ['matrix', 'rows', 'cols']})
+                                   sub={'traceback': list(tb_sub)})
     rep.floor(rule, 'reused buffers of %s' % adt_path, len(bufs), floor_buffers)
     ri = eng_ri.RI(facts, body, bufs).run()
     bad = {}
@@ -107,4 +107,113 @@ _run_sr_only = run
 
 def run(facts, rep, ctx):
     _run_sr_only(facts, rep, ctx)
-    run_ri(facts, rep, 'RI-1', 'alignment::pairwise::Aligner::<F>::custom', 'alignment::pairwise::Aligner', 12)
+    # the unbanded DP rewrites every traceback cell before the traceback reads it, so for C01 clearing the matrix is
+    # sufficient but not necessary for history independence: only its dimensions are claimed here (C02 claims the cells)
+    run_ri(facts, rep, 'RI-1', 'alignment::pairwise::Aligner::<F>::custom', 'alignment::pairwise::Aligner', 11,
+           tb_sub=('rows', 'cols'))
+
+
+# --------------------------------------------------------------------------- TB-1b
+
+def innermost_guard(b, bb):
+    """(switch block, target) of the innermost conditional edge controlling bb, or None"""
+    x = bb
+    seen = set()
+    while x not in seen:
+        seen.add(x)
+        ps = [p for p in b.pred[x] if p in b.reachable(0)]
+        if len(ps) != 1:
+            return None
+        p = ps[0]
+        if b.term(p)['k'] == 'switch':
+            return (p, x)
+        x = p
+    return None
+
+
+def tb1b(facts, rep, rule, body_path):
+    """score/traceback co-update in the fix-up passes after the main DP"""
+    from .mirlib import call_info
+    from . import eng_ri
+    rep.rule(rule, 'score / traceback co-update: after the main DP loop (where cells have already been stored with '
+                   'Traceback::set) every store of a value other than MIN_SCORE into a score column S, I or D is accompanied, '
+                   'in the straight-line part of the region controlled by its innermost guard, by set_{s,i,d}_bits on '
+                   'traceback.get_mut(..) for the same layer - otherwise the reported score and the traced path diverge')
+    b = facts.body(body_path)
+    if b is None:
+        rep.missing(rule, body_path, 'not found')
+        return
+    rep.analysed_body(b)
+    loops = b.natural_loops()
+    setters = [bb for bb, t in b.calls() if call_info(t) and call_info(t)['fn'] == 'alignment::pairwise::Traceback::set']
+    dp_blocks = set()
+    for h, blocks in loops.items():
+        if any(s in blocks for s in setters):
+            dp_blocks |= blocks
+    if not setters or not dp_blocks:
+        rep.missing(rule, body_path + '|main-dp-loop', 'no loop storing traceback cells found')
+        return
+    # post-DP region: reachable from the DP loops, outside them, and with no DP block reachable any more
+    after = set()
+    for x in dp_blocks:
+        after |= b.reachable(x)
+    after -= dp_blocks
+    post = {x for x in after if not (b.reachable(x) & dp_blocks)}
+    ri = eng_ri.RI(facts, b, {}, peel=False)
+    # stores into S/I/D elements
+    sites = []
+    for bb, t in b.calls():
+        info = call_info(t)
+        if not info or not info['fn'].endswith('IndexMut::index_mut') or bb not in post:
+            continue
+        sp = ri.arg_self_ref(t['args'][0], 3)
+        if not sp or sp[0] not in ('S', 'I', 'D') or 'pj' in t['dest']:
+            continue
+        p = t['dest']['l']
+        for (kind, ubb, x) in eng_ri.uses_of_locals(b).get(p, []):
+            if kind != 'stmt':
+                continue
+            s = b.stmts(ubb)[x]
+            if s['k'] == 'assign' and s['p']['l'] == p and s['p'].get('pj') == ['*']:
+                o = s['r'].get('o', {})
+                isdef = (o.get('k') or {}).get('def', '')
+                if isdef.endswith('MIN_SCORE'):
+                    continue
+                sites.append((sp[0], ubb, x))
+    n = 0
+    for layer, bb, i in sites:
+        n += 1
+        key = '%s|fixup-store-%s@%d' % (body_path, layer, n)
+        g = innermost_guard(b, bb)
+        want = 'set_%s_bits' % layer.lower()
+        if g is None:
+            region = {bb}
+        else:
+            region = {y for y in b.reachable(0) if b.dominates(g[1], y) and innermost_guard(b, y) == g}
+        found = False
+        for y in region:
+            t = b.term(y)
+            if t['k'] == 'call' and call_info(t) and call_info(t)['fn'].endswith('TracebackCell::' + want):
+                e = fmt_first_arg(b, t)
+                if 'get_mut' in e:
+                    found = True
+        if found:
+            rep.ok(rule, key, b.loc(bb, i), '%s[..] update paired with traceback.get_mut(..).%s' % (layer, want))
+        else:
+            rep.bad(rule, key, b.loc(bb, i), 'a fix-up pass raises %s[..] but does not record the corresponding move with %s on '
+                                             'the stored traceback cell: the returned operations no longer achieve the reported '
+                                             'score' % (layer, want))
+    rep.floor(rule, 'fix-up stores into S/I/D after the main DP', n, 5)
+
+
+def fmt_first_arg(b, t):
+    from .mirlib import fmt, strip
+    return fmt(strip(b.expr_operand(t['args'][0], inline_user=True)))
+
+
+_run_prev = run
+
+
+def run(facts, rep, ctx):
+    _run_prev(facts, rep, ctx)
+    tb1b(facts, rep, 'TB-1b', 'alignment::pairwise::Aligner::<F>::custom')
